@@ -1079,3 +1079,49 @@ func resolveCell(v ssa.Value) ssa.Value {
 	}
 	return v
 }
+
+// lockReleased: the Lock at call site lk is followed by an Unlock of the same
+// mutex on every path to every return it can reach, or a deferred Unlock of
+// that mutex is registered on the way to each of those returns.
+func lockReleased(fn *ssa.Function, lk ssa.CallInstruction) (bool, string) {
+	op, ok := mutexOp(lk)
+	if !ok {
+		return false, "not a mutex operation"
+	}
+	isUnlock := func(in ssa.Instruction) bool {
+		ci, ok := in.(*ssa.Call)
+		if !ok {
+			return false
+		}
+		o, ok := mutexOp(ci)
+		return ok && o.kind == "unlock" && o.key == op.key
+	}
+	var defers []*ssa.Defer
+	instrsOf(fn, func(in ssa.Instruction) {
+		if d, ok := in.(*ssa.Defer); ok {
+			if o, ok := mutexOp(d); ok && o.kind == "unlock" && o.key == op.key {
+				defers = append(defers, d)
+			}
+		}
+	})
+	reach := reachableFrom(lk.Block(), nil)
+	for _, r := range returnsOf(fn) {
+		if !reach[r.Block()] && r.Block() != lk.Block() {
+			continue
+		}
+		byDefer := false
+		for _, d := range defers {
+			if d.Block().Dominates(r.Block()) {
+				byDefer = true
+			}
+		}
+		if byDefer {
+			continue
+		}
+		mn, _, okP := pathCountTo(lk.Block(), r.Block(), isUnlock)
+		if !okP || mn < 1 {
+			return false, "a path from the Lock to the return at line " + fmt.Sprint(fn.Prog.Fset.Position(r.Pos()).Line) + " neither unlocks nor has a deferred Unlock registered"
+		}
+	}
+	return true, ""
+}
